@@ -7,7 +7,11 @@ access to a shared struct field, regenerated from the Go sources by
 `harness/locks-extract` on every run) and `factComplies` (the decidable, lexical form of the
 discipline), see the end of this file and `Refinery.Model.LocksTable`.
 
-* A trace is a list of events `(thread, operation, object, argument)`.
+* A trace is a list of events `(thread, operation, object, argument)`.  Mutexes, locations,
+  functions and roles are natural numbers; the generated module `Refinery.Gen.Access` gives every
+  `Struct.field` and every function of the analysed packages a named constant
+  (`L.«StressRelief.stressed»`, `F.«StressRelief.Recalc»`), so tables and facts are written with
+  names and decided on numbers (string comparison is very slow in the kernel).
 * Operations: acquire/release of a mutex in shared (`RLock`) or exclusive (`Lock`) mode,
   plain read / plain write / atomic (or other synchronising) operation on a location, `spawn u`
   (the `go` statement creating thread `u`), `join u` (waiting for thread `u` to end:
@@ -34,7 +38,7 @@ thread of `spawn`/`join` (unused otherwise). -/
 structure Event where
   tid : Nat
   op : Op
-  obj : String := ""
+  obj : Nat := 0
   arg : Nat := 0
   deriving DecidableEq, Repr
 
@@ -63,7 +67,7 @@ instance decExistsSome {α} (o : Option α) (P : α → Prop) [∀ a, Decidable 
 
 /-- Thread `t` holds mutex `m` in mode `md` just before position `i`: an acquire by `t` at some
 `q < i` that `t` has not released since. -/
-def holdsAt (tr : Trace) (i t : Nat) (m : String) (md : Mode) : Prop :=
+def holdsAt (tr : Trace) (i t : Nat) (m : Nat) (md : Mode) : Prop :=
   ∃ q, q < i ∧ (∃ e, tr[q]? = some e ∧ (e.tid = t ∧ e.op = acqOp md ∧ e.obj = m)) ∧
     ∀ r, r < i → q < r → ∀ e, tr[r]? = some e → ¬ (e.tid = t ∧ e.op = relOp md ∧ e.obj = m)
 instance (tr i t m md) : Decidable (holdsAt tr i t m md) := by unfold holdsAt; infer_instance
@@ -125,11 +129,11 @@ def Race (tr : Trace) (i j : Nat) : Prop := i < j ∧ Conflict tr i j ∧ ¬ HB 
 
 /-- Synchronisation discipline of one shared location (threads named by id). -/
 inductive Discipline
-  | lock (m : String)              -- every access holds `m`; reads may hold it shared
+  | lock (m : Nat)              -- every access holds `m`; reads may hold it shared
   | confined (t : Nat)             -- only thread `t` accesses it
   | atomic                         -- only atomic / synchronising operations
   | initOnly                       -- written only during initialisation; read freely afterwards
-  | ownedLock (t : Nat) (m : String) -- written only by `t` holding `m` exclusively; `t` may read
+  | ownedLock (t : Nat) (m : Nat) -- written only by `t` holding `m` exclusively; `t` may read
                                    -- without the lock, everybody else reads holding `m`
   deriving DecidableEq, Repr
 
@@ -155,12 +159,12 @@ instance (tr i e d) : Decidable (compliesD tr i e d) := by
   cases d <;> simp only [compliesD] <;> infer_instance
 
 /-- The access `e` at position `i` complies with the discipline table `D`. -/
-def Complies (tr : Trace) (D : String → Discipline) (i : Nat) (e : Event) : Prop :=
+def Complies (tr : Trace) (D : Nat → Discipline) (i : Nat) (e : Event) : Prop :=
   preSpawn tr i e ∨ postJoin tr i e ∨ compliesD tr i e (D e.obj)
 instance (tr D i e) : Decidable (Complies tr D i e) := by unfold Complies; infer_instance
 
 /-- Every access of the trace complies. -/
-def AllComply (tr : Trace) (D : String → Discipline) : Prop :=
+def AllComply (tr : Trace) (D : Nat → Discipline) : Prop :=
   ∀ i, i < tr.length → ∀ e, tr[i]? = some e → e.isAccess → Complies tr D i e
 instance (tr D) : Decidable (AllComply tr D) := by unfold AllComply; infer_instance
 
@@ -234,7 +238,7 @@ theorem wf_of_dec {tr : Trace} (h1 : wfMutex tr) (h2 : wfRel tr) (h3 : wfSpawned
 
 /-! ## Lexical access facts (the tie to the Go sources)
 
-One `Fact` = one syntactic access to a tracked struct field in a function of the anchored files:
+One `Fact` = one syntactic access to a tracked struct field in a function of the analysed packages:
 `loc` = `Struct.field`, `fn` = enclosing function (`Recv.Method`, closures `…$n`), `kind`, and the
 mutex fields of the *same receiver expression* that are lexically held at that point
 (`x.mu.Lock()` … `x.mu.Unlock()`, `defer x.mu.Unlock()` ⇒ to the end of the function).
@@ -245,10 +249,10 @@ inductive AKind | read | write | atomic
   deriving DecidableEq, Repr
 
 structure Fact where
-  loc : String
-  fn : String
+  loc : Nat
+  fn : Nat
   kind : AKind
-  held : List (String × Mode) := []
+  held : List (Nat × Mode) := []
   /-- the base expression is a local bound, in this very function, to a composite literal or to the
   result of a constructor: the object is not shared yet -/
   fresh : Bool := false
@@ -256,56 +260,83 @@ structure Fact where
 
 /-- Which goroutine(s) run a function (hand-written role table). `any`: callable from several
 goroutines at once. `named r`: only the single goroutine playing role `r` for that object. -/
-inductive Role | init | teardown | any | named (r : String)
+inductive Role | init | teardown | any | named (r : Nat)
   deriving DecidableEq, Repr
 
 /-- Discipline of a field, with roles instead of thread ids. -/
 inductive LDisc
-  | lock (m : String) | confined (r : String) | atomic | initOnly | ownedLock (r : String) (m : String)
+  | lock (m : Nat) | confined (r : Nat) | atomic | initOnly | ownedLock (r : Nat) (m : Nat)
   deriving DecidableEq, Repr
 
-def Fact.holds (f : Fact) (m : String) (md : Mode) : Bool := f.held.contains (m, md)
+def Fact.holds (f : Fact) (m : Nat) (md : Mode) : Bool := f.held.contains (m, md)
 
-/-- The lexical compliance test of one access fact with the discipline of its field. -/
-def factComplies (role : Role) (d : LDisc) (f : Fact) : Bool :=
-  if f.fresh then true else
+/-- The part of the lexical test that does not depend on who runs the function. -/
+def factBasic (d : LDisc) (f : Fact) : Bool :=
+  match d with
+  | .lock m => f.holds m .ex || (f.kind == .read && f.holds m .sh)
+  | .confined _ => false
+  | .atomic => f.kind == .atomic
+  | .initOnly => f.kind == .read
+  | .ownedLock _ m => f.kind == .read && (f.holds m .sh || f.holds m .ex)
+
+/-- The part that depends on the role of the enclosing function. -/
+def factByRole (role : Role) (d : LDisc) (f : Fact) : Bool :=
   match role with
   | .init | .teardown => true
-  | _ =>
+  | .any => false
+  | .named q =>
     match d with
-    | .lock m => f.holds m .ex || (f.kind == .read && f.holds m .sh)
-    | .confined r => role == .named r
-    | .atomic => f.kind == .atomic
-    | .initOnly => f.kind == .read
-    | .ownedLock r m => (role == .named r && f.holds m .ex) ||
-        (f.kind == .read && (role == .named r || f.holds m .sh || f.holds m .ex))
+    | .confined r => q == r
+    | .ownedLock r m => q == r && (f.holds m .ex || f.kind == .read)
+    | _ => false
 
-def lookup {β} (t : List (String × β)) (k : String) : Option β :=
-  (t.find? (fun p => p.1 == k)).map (·.2)
+/-- The lexical compliance test of one access fact with the discipline of its field
+(the role is consulted last: most facts are decided by `factBasic`). -/
+def factComplies (role : Role) (d : LDisc) (f : Fact) : Bool :=
+  f.fresh || factBasic d f || factByRole role d f
 
-def roleOf (roles : List (String × Role)) (fn : String) : Role := (lookup roles fn).getD .any
+def lookup {β} (t : List (Nat × β)) (k : Nat) : Option β :=
+  match t with
+  | [] => none
+  | (k', v) :: rest => if k' == k then some v else lookup rest k
+
+def roleOf (roles : List (Nat × Role)) (fn : Nat) : Role := (lookup roles fn).getD .any
 
 /-- A fact complies with the table; a field without an entry never complies. -/
-def factOK (disc : List (String × LDisc)) (roles : List (String × Role)) (f : Fact) : Bool :=
+def factOK (disc : List (Nat × LDisc)) (roles : List (Nat × Role)) (f : Fact) : Bool :=
   match lookup disc f.loc with
   | some d => factComplies (roleOf roles f.fn) d f
   | none => false
 
-def allFactsComply (disc : List (String × LDisc)) (roles : List (String × Role)) (fs : List Fact) : Bool :=
-  fs.all (factOK disc roles)
+def isKnown (known : List (Nat × Nat × AKind)) (f : Fact) : Bool :=
+  known.any (fun k => k.1 == f.loc && k.2.1 == f.fn && k.2.2 == f.kind)
 
-def failing (disc : List (String × LDisc)) (roles : List (String × Role)) (fs : List Fact) : List Fact :=
+/-- `factOK` with the discipline of the previous fact's location cached (the generated list is
+sorted by location; the result does not depend on the order). -/
+def checkFrom (disc : List (Nat × LDisc)) (roles : List (Nat × Role)) (known : List (Nat × Nat × AKind)) :
+    Option (Nat × Option LDisc) → List Fact → Bool
+  | _, [] => true
+  | cache, f :: fs =>
+    let d? : Option LDisc := match cache with
+      | some (l, d) => if l == f.loc then d else lookup disc f.loc
+      | none => lookup disc f.loc
+    ((match d? with
+      | some d => factComplies (roleOf roles f.fn) d f
+      | none => false) || isKnown known f) && checkFrom disc roles known (some (f.loc, d?)) fs
+
+/-- Every fact complies with the table or is one of the listed known violations. -/
+def allFactsComply (disc : List (Nat × LDisc)) (roles : List (Nat × Role))
+    (known : List (Nat × Nat × AKind)) (fs : List Fact) : Bool :=
+  checkFrom disc roles known none fs
+
+def failing (disc : List (Nat × LDisc)) (roles : List (Nat × Role)) (fs : List Fact) : List Fact :=
   fs.filter (fun f => !factOK disc roles f)
-
-/-- Facts minus the listed (location, function, kind) triples. -/
-def withoutKnown (known : List (String × String × AKind)) (fs : List Fact) : List Fact :=
-  fs.filter (fun f => !known.contains (f.loc, f.fn, f.kind))
 
 def opOfKind : AKind → Op | .read => .read | .write => .write | .atomic => .atomic
 
 /-- Interpretation of a lexical discipline in the thread-level model, given the thread that
 plays each role. -/
-def LDisc.interp (thr : String → Nat) : LDisc → Discipline
+def LDisc.interp (thr : Nat → Nat) : LDisc → Discipline
   | .lock m => .lock m
   | .confined r => .confined (thr r)
   | .atomic => .atomic
@@ -314,7 +345,7 @@ def LDisc.interp (thr : String → Nat) : LDisc → Discipline
 
 /-- What the extractor and the role table are trusted to deliver for a dynamic access `e` at
 position `i` that is an instance of the lexical fact `f`. -/
-structure Instance (tr : Trace) (thr : String → Nat) (role : Role) (f : Fact) (i : Nat) (e : Event) : Prop where
+structure Instance (tr : Trace) (thr : Nat → Nat) (role : Role) (f : Fact) (i : Nat) (e : Event) : Prop where
   loc : e.obj = f.loc
   kind : e.op = opOfKind f.kind
   held : ∀ m md, f.holds m md = true → holdsAt tr i e.tid m md
